@@ -146,7 +146,7 @@ func c04Emit(e *ttlv.Encoder, it *c04Item) {
 	case "bytes":
 		e.ByteString(it.Tag, it.bytes())
 	case "date":
-		e.DateTime(it.Tag, time.Unix(it.num().Int64(), 0))
+		e.DateTime(it.Tag, c04Instant(it.num().Int64()))
 	case "intv":
 		e.Interval(it.Tag, time.Duration(it.num().Int64())*time.Second)
 	case "mask":
@@ -278,7 +278,7 @@ func c04ToValue(it *c04Item) (ttlv.Value, bool) {
 	case "bytes":
 		v.Value = it.bytes()
 	case "date":
-		v.Value = time.Unix(it.num().Int64(), 0)
+		v.Value = c04Instant(it.num().Int64())
 	case "intv":
 		v.Value = time.Duration(it.num().Int64()) * time.Second
 	default:
@@ -357,6 +357,12 @@ func c04Encode(format string, it *c04Item) (b []byte, pan any) {
 	}
 	c04Emit(&e, it)
 	return bytes.Clone(e.Bytes()), nil
+}
+
+// c04Instant: the instant handed to the writers; on some of them a sub-second part, which no encoding
+// carries (whole seconds, truncated): what is written must not depend on it.
+func c04Instant(sec int64) time.Time {
+	return time.Unix(sec, []int64{0, 0, 499999999, 500000000, 999999999}[uint64(sec)%5])
 }
 
 func c04NewDecoder(format string, doc []byte) (ttlv.Decoder, error) {
